@@ -22,6 +22,7 @@ import (
 	"errors"
 	"fmt"
 	"io"
+	"slices"
 	"sync"
 
 	"seehuhn.de/go/membudget"
@@ -1193,36 +1194,60 @@ func (w *withClose) Close() error {
 	return w.close()
 }
 
-func appendFilter(streamDict Dict, name Name, parms Dict) {
+// insertFilter adds a filter at position pos of the filter chain described by
+// the /Filter and /DecodeParms entries of streamDict, keeping the two entries
+// parallel.
+//
+// The filters given to [Writer.OpenStream] encode the bytes the caller writes.
+// If the dictionary already names a filter chain (the caller writes data
+// which is encoded that way already), a reader must undo the added filters
+// first: they are inserted in front of the caller's chain, but behind a
+// leading /Crypt entry, which must stay first.
+func insertFilter(streamDict Dict, pos int, name Name, parms Dict) {
+	var names Array
 	switch filter := streamDict["Filter"].(type) {
 	case Name:
-		streamDict["Filter"] = Array{filter, name}
-		p0, _ := streamDict["DecodeParms"].(Dict)
-		if len(p0)+len(parms) > 0 {
-			streamDict["DecodeParms"] = Array{p0, parms}
-		}
-
+		names = Array{filter}
 	case Array:
-		streamDict["Filter"] = append(filter, name)
-		pp, _ := streamDict["DecodeParms"].(Array)
-		needsParms := len(parms) > 0
-		for i := 0; i < len(pp) && !needsParms; i++ {
-			pi, _ := pp[i].(Dict)
-			needsParms = len(pi) > 0
+		names = filter
+	}
+	pp := make(Array, len(names))
+	switch p := streamDict["DecodeParms"].(type) {
+	case Dict:
+		if len(pp) > 0 {
+			pp[0] = p
 		}
-		if needsParms {
-			for len(pp) < len(filter) {
-				pp = append(pp, nil)
-			}
-			pp := pp[:len(filter)]
-			streamDict["DecodeParms"] = append(pp, parms)
-		}
+	case Array:
+		copy(pp, p)
+	}
 
-	default:
-		streamDict["Filter"] = name
-		if len(parms) > 0 {
+	pos = min(pos, len(names))
+	names = slices.Insert(slices.Clone(names), pos, Object(name))
+	var p Object
+	if len(parms) > 0 {
+		p = parms
+	}
+	pp = slices.Insert(pp, pos, p)
+
+	needsParms := false
+	for _, pi := range pp {
+		if d, _ := pi.(Dict); len(d) > 0 {
+			needsParms = true
+		}
+	}
+	if len(names) == 1 {
+		streamDict["Filter"] = names[0]
+		if needsParms {
 			streamDict["DecodeParms"] = parms
 		}
+	} else {
+		streamDict["Filter"] = names
+		if needsParms {
+			streamDict["DecodeParms"] = pp
+		}
+	}
+	if !needsParms {
+		delete(streamDict, "DecodeParms")
 	}
 }
 
